@@ -10,7 +10,8 @@ import random
 
 import core
 import c07_build as B
-from c07_obs import open_deb, drop, obs_has, obs_get, obs_md5, obs_scripts, obs_ctl, mutate_result
+from c07_obs import (open_deb, drop, pick_how, obs_has, obs_get, obs_md5, obs_scripts, obs_ctl, mutate_result,
+                     N_ACCESS, MD5_WAYS, HOWS_SHARED)
 
 SPELLINGS = ["plain", "dot", "slash"]
 PARTS = ["control", "data"]
@@ -97,10 +98,10 @@ def gen_hist(rnd, tab, pkgs, prts, nsteps, stress=0):
         m = [B.INFO, prts[o]["ctrl"], prts[o]["data"]]
         rnd.shuffle(m)
         mems[o] = m
-        hows[o] = "filename" if rnd.random() < 0.5 else "fileobj"
+        hows[o] = pick_how(rnd, 0.5)       # the two live objects are usually created in different ways
         styles[o] = "dpkg" if rnd.random() < 0.8 else "gnu"
-    if stress and "fileobj" not in hows.values():
-        hows[rnd.choice((1, 2))] = "fileobj"
+    if stress and not any(x in HOWS_SHARED for x in hows.values()):
+        hows[rnd.choice((1, 2))] = rnd.choice(HOWS_SHARED)
     queries = sorted(tab[(0, 0)])
     g = [0, 0]
     ops, prev = [], None
@@ -121,7 +122,7 @@ def gen_hist(rnd, tab, pkgs, prts, nsteps, stress=0):
         else:
             q = rnd.choice(queries)
         prev = q
-        ops.append(["q", q[0], q[1], list(q[2]), rnd.randrange(5), rnd.choice([None, "utf-8"]),
+        ops.append(["q", q[0], q[1], list(q[2]), rnd.randrange(N_ACCESS), rnd.choice(MD5_WAYS),
                     tab[tuple(g)][q], g[q[0] - 1]])
     return {"kind": "hist", "concs": concs, "mems": {str(k): v for k, v in mems.items()},
             "hows": {str(k): v for k, v in hows.items()}, "styles": {str(k): v for k, v in styles.items()},
@@ -169,7 +170,9 @@ def run_hist(case, work, drift=None):
                     if err != out["err"] or (not err and found != out["found"]):
                         return "%s: package %d %s.has_file(%r) = %s, specification says %s" % (where, o, p, path, err or found, out["found"])
                 else:
-                    err, data = obs_get(part, path, variant, sess.disturber(o), rnd)
+                    exp = conc.blob[out["blob"]] if out["found"] else None
+                    err, data = obs_get(part, path, variant, sess.disturber(o), rnd, plain=conc.names[n],
+                                        textok=exp is None or b"\r" not in exp)
                     if err == "DebError" and not out["found"]:
                         if drift is not None:
                             drift("get_content of an absent file raises DebError (KeyError expected)")
@@ -237,14 +240,14 @@ def record_session(rnd, work, given=None):
                 m.append(rnd.choice(["_gpgorigin", "foo", "data.tar.gz.bak"]))
             rnd.shuffle(m)
             mems[o] = m
-            hows[o] = "filename" if rnd.random() < 0.5 else "fileobj"
+            hows[o] = pick_how(rnd, 0.5)
             styles[o] = "dpkg" if rnd.random() < 0.8 or any(len(x) > 15 for x in m) else "gnu"
         present_c = B.CTRL_NAMES
         calls, gens, prev = [], {1: 0, 2: 0}, None
         for _ in range(rnd.randint(15, 45)):
             r = rnd.random()
             if prev is not None and r < 0.3:
-                calls.append(prev[:5] + [rnd.randrange(5)] if prev[0] in ("has", "get") else list(prev))
+                calls.append(prev[:5] + [rnd.randrange(N_ACCESS)] if prev[0] in ("has", "get") else list(prev))
             elif r < 0.37:
                 calls.append(["mutate"])
             elif r < 0.42:
@@ -254,13 +257,13 @@ def record_session(rnd, work, given=None):
                 concs[key] = sibling(rnd, c1, model)
                 calls.append(["reopen", o, key])
             elif r < 0.55:
-                prev = [rnd.choice(["scripts", "md5sums", "debcontrol"]), rnd.choice((1, 2)), rnd.choice([None, "utf-8"])]
+                prev = [rnd.choice(["scripts", "md5sums", "debcontrol"]), rnd.choice((1, 2)), rnd.choice(MD5_WAYS)]
                 calls.append(prev)
             else:
                 p = rnd.choice(PARTS)
                 r2 = rnd.random()
                 n = (rnd.choice(model) if model and r2 < 0.55 else rnd.choice(present_c) if r2 < 0.85 else "absent")
-                prev = [rnd.choice(["has", "get"]), rnd.choice((1, 2)), p, rnd.choice(SPELLINGS), n, rnd.randrange(5)]
+                prev = [rnd.choice(["has", "get"]), rnd.choice((1, 2)), p, rnd.choice(SPELLINGS), n, rnd.randrange(N_ACCESS)]
                 calls.append(prev)
     else:
         concs = {k: B.Conc.from_json(v) for k, v in given["concs"].items()}
@@ -313,7 +316,9 @@ def record_session(rnd, work, given=None):
                     err, found = obs_has(part, path)
                     events.append({"op": "has", "o": o, "p": p, "sp": sp, "n": mn, "err": err, "found": bool(found)})
                 else:
-                    err, data = obs_get(part, path, variant, sess.disturber(o), random.Random(len(events)))
+                    pb = dict(cur[o].cfiles if p == "control" else cur[o].dfiles).get(names[n])
+                    err, data = obs_get(part, path, variant, sess.disturber(o), random.Random(len(events)), plain=names[n],
+                                        textok=pb is None or b"\r" not in pb)
                     if err == "DebError" and obs_has(part, path)[0] == "":
                         err, data = "", None
                     events.append({"op": "get", "o": o, "p": p, "sp": sp, "n": mn, "err": err, "found": data is not None,
